@@ -31,7 +31,7 @@ ANCHORS = [
 REQUIRED_MONITORS = ["Circle.planar_moments_inertia", "Ellipse.planar_moments_inertia", "Ellipse.perimeter",
                      "Ellipsoid.surface_area", "Ellipsoid.inertia_tensor", "Sphere.inertia_tensor",
                      "Ellipse.iq", "Ellipsoid.iq"]
-REQUIRED_CLASSES = ["Circle", "Ellipse", "Sphere", "Ellipsoid", "axes:neartie", "axes:tie", "center:generic", "history:set-then-read"]
+REQUIRED_CLASSES = ["Circle", "Ellipse", "Sphere", "Ellipsoid", "axes:neartie", "axes:tie", "center:generic", "history:set-then-read", "center-form:int"]
 
 REL = 1e-9
 _cache = {}
@@ -204,6 +204,15 @@ def run_case(i, rng, rec, tier, state):
     c, cmode = gen.center_case(rng, max(ax), dims)
     cu = rng.random()
     center = tuple(float(x) for x in c) if cu < 0.4 else (list(c) if cu < 0.6 else np.array(c))
+    if rng.random() < 0.2:
+        # whole-number centres given as integers (Python ints, int64 / int32 arrays): (1, 2, 3) is as good a centre as (1., 2., 3.)
+        ci = np.rint(c / max(ax) * float(rng.choice([1, 3]))).astype(int) if np.any(c != 0) else rng.integers(-4, 5, size=3)
+        if dims == 2:
+            ci[2] = 0
+        c = ci.astype(float)
+        form = int(rng.integers(4))
+        center = (tuple(int(x) for x in ci), [int(x) for x in ci], ci.astype(np.int64), ci.astype(np.int32))[form]
+        rec.cls("center-form:int")
     args = [_typed(rng, a) for a in ax]
     s = getattr(cs, which)(*args, center)
     rec.cls(which)
